@@ -551,6 +551,10 @@ pub fn fold_case(&(t, f, am, ao, bm, bo, pattern, period): &(usize, usize, u8, i
 }
 
 fn main() {
+    kvh::on_thread(real_main);
+}
+
+fn real_main() {
     let args = kvh::parse_args("C09", "c09");
     let mut ctx = Ctx::new(args.clone(), RULE);
     if let Some(p) = &args.replay {
